@@ -150,6 +150,7 @@ static void vec_erase(struct vec* v, cit first, cit last) { if (last != &v->data
 #define VEC_IS_SORTED(v) range_sorted(&(v)->data[0], (v)->n)
 #endif
 /* ---- ghost event record of a scan ---- */
+uint64_t g_last_slot_clock, g_acq_fence_clock; /* last slot read; last acquire-or-stronger fence */
 uint64_t g_fence_clock, g_first_slot_clock, g_adopt_clock, g_first_state_clock, g_head_clock; int g_head_order;
 unsigned g_slot_reads[XV_E][XV_K], g_state_reads[XV_E]; _Bool g_seen_active[XV_E], g_link_seen;
 uintptr_t g_val[XV_E][XV_K]; _Bool g_counted[XV_E][XV_K];
@@ -166,7 +167,7 @@ static void mon_load(void* addr, uint64_t v, int o) {
   for (unsigned k = 0; k < XV_E; k++) {
     if (addr == (void*)&epool(k).state) { g_state_reads[k]++; g_seen_active[k] = ((int)v == ES_active); if (!g_first_state_clock) g_first_state_clock = xv_clock; }
     for (unsigned i = 0; i < XV_K; i++) if (addr == (void*)&epool(k).pointers[i].value) {
-      g_slot_reads[k][i]++; if (!g_first_slot_clock) g_first_slot_clock = xv_clock;
+      g_slot_reads[k][i]++; if (!g_first_slot_clock) g_first_slot_clock = xv_clock; g_last_slot_clock = xv_clock;
       if (g_seen_active[k] && MP_mark(v) == 0) {
         g_counted[k][i] = 1;
 #ifdef XV_HE
@@ -181,7 +182,7 @@ static void mon_load(void* addr, uint64_t v, int o) {
 static void mon_load_blocks(void* addr, uint64_t v, int o) {
   for (unsigned k = 0; k < XV_E; k++) if (addr == (void*)&epool(k).hp_block) { g_hpblock_loads++; g_hpblock_order = o; }
   for (unsigned b = 0; b < XV_NB; b++) for (unsigned i = 0; i < XV_BS; i++) if (addr == (void*)&DBLK(b)->s[i].value) {
-    g_bslot_reads[b][i]++; if (!g_first_slot_clock) g_first_slot_clock = xv_clock;
+    g_bslot_reads[b][i]++; if (!g_first_slot_clock) g_first_slot_clock = xv_clock; g_last_slot_clock = xv_clock;
     if (g_seen_active[0] && MP_mark(v) == 0) { g_bcounted[b][i] = 1;
 #ifdef XV_HE
       g_bval[b][i] = (uintptr_t)(MP_get(v) >> 1);
@@ -191,7 +192,7 @@ static void mon_load_blocks(void* addr, uint64_t v, int o) {
     }
   }
 }
-static void mon_fence(int o) { if (o == mo_seq_cst && !g_fence_clock) g_fence_clock = xv_clock; }
+static void mon_fence(int o) { if (o == mo_seq_cst && !g_fence_clock) g_fence_clock = xv_clock; if (XV_IS_ACQUIRE(o)) g_acq_fence_clock = xv_clock; }
 static void mon_store(void* addr, uint64_t v, int o) {
   for (unsigned k = 0; k < XV_E; k++) if (addr == (void*)&epool(k).state) { g_state_store_n++; g_state_store_k = k; g_state_store_o = o; g_state_store_v = (int)v; }
   if (addr == (void*)&global_thread_block_list.abandoned_retired_nodes) g_ab_store_n++;
@@ -376,6 +377,7 @@ static struct node* adopted(unsigned i) { return NODE(XV_L + i); }
 static _Bool is_own(unsigned j) { return j < in_nl; }
 static _Bool is_adopted(unsigned j) { return j >= XV_L && j < XV_L + in_na; }
 static void reset_ghost(void) {
+  g_last_slot_clock = g_acq_fence_clock = 0;
   g_fence_clock = g_first_slot_clock = g_adopt_clock = g_first_state_clock = g_head_clock = g_first_delete_clock = 0; g_head_order = -1; g_link_seen = 0;
   for (unsigned k = 0; k < XV_E; k++) { g_state_reads[k] = 0; g_seen_active[k] = 0; for (unsigned i = 0; i < XV_K; i++) { g_slot_reads[k][i] = 0; g_counted[k][i] = 0; g_val[k][i] = 0; } }
   for (unsigned b = 0; b < XV_NB; b++) for (unsigned i = 0; i < XV_BS; i++) { g_bslot_reads[b][i] = 0; g_bcounted[b][i] = 0; g_bval[b][i] = 0; }
@@ -460,6 +462,9 @@ static void check_order_obligations(void) {
   XV_OBL("hpscan.fence_first", g_fence_clock != 0 && (g_first_slot_clock == 0 || g_fence_clock < g_first_slot_clock));
   XV_OBL("hpscan.adopt_before_gather", g_ab_xchg_n <= 1 && (g_adopt_clock == 0 || g_first_slot_clock == 0 || g_adopt_clock < g_first_slot_clock));
   XV_OBL("hpscan.fence_first", g_first_delete_clock == 0 || g_first_slot_clock == 0 || g_first_slot_clock < g_first_delete_clock);
+  /* sync: an acquire(-or-stronger) fence lies between the last slot that was read and the first object that is deleted: it pairs with the release store by which a guard
+     gives its slot up, so the deletion happens after that thread's last access to the object */
+  XV_OBL("hpscan.fence_first", g_first_delete_clock == 0 || g_last_slot_clock == 0 || (g_acq_fence_clock >= g_last_slot_clock && g_acq_fence_clock < g_first_delete_clock));
   XV_OBL("hpscan.search_sorted", g_search_unsorted == 0 && g_reclaim_unsorted == 0);
   XV_MODEL_ASSERT("vector capacity", !g_model_overflow);
 }
